@@ -184,7 +184,7 @@ class Doc(object):
         text = self.floats(vals)
         if n and r.random() < 0.15:
             toks = text.split()
-            toks[r.randrange(len(toks))] = r.choice(['NaN', 'nan'])
+            toks[r.randrange(len(toks))] = r.choice(['NaN', 'nan', 'INF', '-INF', 'inf'])
             text = ' '.join(toks)
         self.sub(s, 'float_array', text, id=sid + '-array', count=n)
         tc = self.sub(s, 'technique_common')
